@@ -117,6 +117,7 @@ func peerClass(p *peerScript) string {
 func account(sc *scenario, n int, o *outcome, v verdict) {
 	hx.Eval()
 	hx.Class("ctx/" + sc.Ctx)
+	hx.Class("entry/" + map[bool]string{true: "Dialer.Dial", false: "ws.Dial+DefaultDialer"}[sc.Entry == ""])
 	hx.Class("wrap/" + map[bool]string{true: "none", false: sc.Wrap}[sc.Wrap == ""])
 	hx.Class("timeout/" + timeoutClass(sc))
 	hx.Class("peer/" + peerClass(&sc.Peer))
@@ -160,7 +161,7 @@ func account(sc *scenario, n int, o *outcome, v verdict) {
 		return
 	}
 	hx.Class("nontrivial")
-	key := hx.Hash(sc.Wrap, sc.Ctx, timeoutClass(sc), peerClass(&sc.Peer), sc.RBuf, sc.WBuf, n, sc.Plan.label(), sc.Plan.IO, v.BoundKind, o.AtReturn.IOs, v.Outcome)
+	key := hx.Hash(sc.Entry, sc.Wrap, sc.Ctx, timeoutClass(sc), peerClass(&sc.Peer), sc.RBuf, sc.WBuf, n, sc.Plan.label(), sc.Plan.IO, v.BoundKind, o.AtReturn.IOs, v.Outcome)
 	hx.NonTrivial(key, func() interface{} { return describe(sc, n, o, v) })
 }
 
@@ -190,6 +191,9 @@ func drawConfig(t *rapid.T) *scenario {
 	p.Tail = rapid.SampledFrom([]int{0, 0, 0, 5}).Draw(t, "tail")
 	p.Gate = rapid.SampledFrom([]int{0, 0, 0, 0, 0, 10, 30, -1}).Draw(t, "gate")
 	p.SlowDL = rapid.IntRange(0, 2).Draw(t, "slowSetDeadline") == 0
+	if rapid.IntRange(0, 3).Draw(t, "entry") == 0 {
+		sc.Entry = "package"
+	}
 	sc.Wrap = rapid.SampledFrom([]string{"", "", "", "", "tlsclient", "wrapconn", "both", "tls-default"}).Draw(t, "wrap")
 	if sc.Wrap == "tls-default" {
 		// crypto/tls runs its handshake inside the first Write of the upgrade
@@ -462,6 +466,9 @@ func TestEveryIOIndex(t *testing.T) {
 				continue
 			}
 			base := scenario{Ctx: cfg.ctx, Deadline: cfg.deadline, Timeout: cfg.timeout, DialDelay: cfg.dialDelay, RBuf: cfg.rbuf, WBuf: cfg.wbuf, Peer: ep.p, Wrap: cfg.wrap}
+			if idx%3 == 0 {
+				base.Entry = "package"
+			}
 			base.Peer.SlowDL = cfg.slowDL
 			n, dryOut, dryV := dryRun(t, &base)
 			if dryV.Violation != "" || dryV.Infra != "" {
@@ -557,6 +564,9 @@ func TestEveryExpiryInstant(t *testing.T) {
 				}
 				base := scenario{DialDelay: dialDelay, WBuf: wbuf, Peer: ep.p}
 				base.Peer.SlowDL = wi == 2
+				if idx%2 == 0 {
+					base.Entry = "package"
+				}
 				switch {
 				case ep.p.TLS:
 					base.Wrap, base.TLSNilCfg = "tls-default", wi%2 == 1
